@@ -277,7 +277,7 @@ def _kernel_part(name, prop, tier, seed, modes):
         irs[nd] = pth
         cmds.append(cmd)
     specs = []
-    budget = 780 if thorough else 75
+    budget = 780 if thorough else 420
     FIXED_R = ("ReadFixed1", "ReadFixed2", "ReadFixed4", "ReadFixed8", "ReadByte", "VerifyFinished")
     FIXED_W = ("WriteFixed1", "WriteFixed2", "WriteFixed4", "WriteFixed8", "WriteByte", "WriteBytes")
     # plan entries: (N, ndebug, round-trip reader ops, truncation reader ops, writer ops); None = all
